@@ -30,7 +30,8 @@ Rem     == [k |-> "remaining"]
 Str_(x) == [k |-> "str", v |-> x]
 
 Leaves == { [k |-> "acct", e |-> Acc("a")], [k |-> "acct", e |-> Acc("world")],
-            [k |-> "ovdu", e |-> Acc("b")], [k |-> "ovd", e |-> Acc("b"), b |-> Mon(5)] }
+            [k |-> "ovdu", e |-> Acc("b")], [k |-> "ovd", e |-> Acc("b"), b |-> Mon(5)],
+            [k |-> "ovd", e |-> Acc("world"), b |-> Mon(5)] }       \* a bound written next to @world: still unbounded
 Seq2(x, y)   == [k |-> "seq", s |-> <<x, y>>]
 Cap(x)       == [k |-> "cap", c |-> Mon(10), s |-> x]
 Allot2(x, y) == [k |-> "allot", it |-> <<[p |-> P(1, 2), s |-> x], [p |-> Rem, s |-> y]>>]
@@ -95,7 +96,17 @@ OrderStmt == Send(FALSE, Var("bal"), LeafV, Dst)
 OrderProgs == {[vars |-> ds, stmts |-> <<OrderStmt>>] : ds \in {<<BalDecl, D("account", "acc")>>, <<D("account", "acc"), BalDecl>>,
                                                                  <<KeyDecl, BalDecl, D("account", "acc")>>, <<BalDecl, D("account", "acc"), KeyDecl>>}}
 
-Progs == IF Scope = "names" THEN NameProgs \cup PosProgs \cup OrderProgs ELSE ShapeProgs \cup NameProgs \cup PosProgs \cup OrderProgs
+\* ---- every allotment of up to three clauses over {1/2, 2/3, remaining, $p}, on either side (sums below, at and above
+\*      one, `remaining` anywhere and repeated, the same variable twice)
+ClauseP == {P(1, 2), P(2, 3), Rem, Var("p")}
+AllotSeqs == UNION {[1..n -> ClauseP] : n \in 1..3}
+SrcOfIdx(i) == LeafL(IF i = 1 THEN "a" ELSE IF i = 2 THEN "b" ELSE "c")
+AllotProgs == {[vars |-> <<D("portion", "p")>>,
+                stmts |-> <<Send(FALSE, Mon(20), [k |-> "allot", it |-> [i \in 1..Len(ps) |-> [p |-> ps[i], s |-> SrcOfIdx(i)]]], Dst)>>] : ps \in AllotSeqs}
+         \cup {[vars |-> <<D("portion", "p")>>,
+                stmts |-> <<Send(FALSE, Mon(20), LeafL("a"), [k |-> "allot", it |-> [i \in 1..Len(ps) |-> [p |-> ps[i], to |-> SrcOfIdx(i)]]])>>] : ps \in AllotSeqs}
+
+Progs == IF Scope = "names" THEN NameProgs \cup PosProgs \cup OrderProgs \cup AllotProgs ELSE ShapeProgs \cup NameProgs \cup PosProgs \cup OrderProgs \cup AllotProgs
 VARIABLES phase, prog
 vars == <<phase, prog>>
 Init == phase = "pick" /\ prog = [vars |-> <<>>, stmts |-> <<>>]
